@@ -55,6 +55,25 @@ CHECKS = {
               "sign-checked multipliers). The model is replayed on the implementation's recorded LP answers and must reproduce terms "
               "(1e-9) and tactic numbers exactly; C04 is also decided exactly on every implementation result."),
         design="4 (C04)", note=NOTE_R + " sympy.solve is replaced in the model by exact Gauss-Jordan (solutions compared at 1e-9); inputs must not use the reserved variable name '_' (C04_underscore_is_reserved shows why)."),
+    "C09": dict(
+        technique="Coq proof about hand-written executable models (PEG parser, folding actions) + exhaustive/differential correspondence + exact semantic oracle",
+        text=("Theorems C09_fold_sound (for every syntax tree of the grammar: the polyhedral terms produced by the folding parse "
+              "actions hold at a real point exactly when the written relation holds under ordinary real arithmetic), C09_parse_sound "
+              "(its composition with the parser model), C09_convex (convexity error iff an absolute term ends up with a non-positive "
+              "coefficient), C09_parser_total and the whitespace-insensitivity theorems (props/C09.v). model/Grammar.v is validated "
+              "against the real pyparsing grammar on every token string up to length 3/4 and random strings; model/Syntax.v against the "
+              "real parse actions; end to end the implementation must agree with parse_terms and with an independent exact decision "
+              "of the relation's meaning over all real points."),
+        design="4 (C09)", note=NOTE_R + " The pyparsing engine is not derived (validated PEG model); literals are exact decimals; constant arithmetic exact."),
+    "C10": dict(
+        technique="Coq proof about hand-written executable models (JSON forms, exact %.4g printer) + character-exact correspondence + exact round-trip oracle",
+        text=("Theorems C10_machine_roundtrip / C10_machine_file_roundtrip (from_dict (to_machine_dict c) = c, file form read back), "
+              "C10_fmt4_value and the round4 laws (the printed %.4g number is exactly a symmetric, idempotent 4-significant-digit "
+              "rounding), C10_partition, C10_print_meaning_rounded / _exact (the printed strings, read as syntax trees, mean the "
+              "constraints with every number rounded as printed; exactly opposite pairs fold without loss) (props/C10.v). "
+              "model/Printer.v agrees with Python character for character on doubles across decades/ties/switch-overs and on "
+              "to_str_list; model/Json.v agrees on dictionaries; real round trips through dicts, strings and files are re-decided exactly."),
+        design="4 (C10)", note=NOTE_R + " The string round trip uses the real parser (model: C09); -0.0/NaN/inf outside the models."),
     "C11": dict(
         technique="Coq proof about a hand-written executable model + correspondence (LP replay) + exact evaluation oracle",
         text=("Theorems C11_contains_exact/_contains_real/_unassigned/_mono (model/Term.v contains_behavior: membership decided exactly, "
@@ -69,6 +88,15 @@ CHECKS = {
               "direction, ValueError exactly when empty, bounds contain every behaviour; the implementation is replayed through the "
               "model and compared with an exact rational LP."),
         design="4 (C12)", note=NOTE_R + " The objective string is parsed by the real grammar (model of the parser: C09)."),
+    "C14": dict(
+        technique="Coq proof over models with explicit escape sites + exhaustive fault enumeration through real files + exception classification",
+        text=("Theorems of props/C14.v: the algebra layer (regenerated from source) yields only IncompatibleArgs or an error of a "
+              "primitive; elimination, simplify, refines, optimize, contains_behavior of the polyhedral model yield only ValueErr (the "
+              "remaining escape kinds are pinned to causes: IndexError/fuel only inside tactic 4's recursion); for ANY json value the "
+              "machine reader returns a contract of exactly the required shape or FormatErr/ValueErr/IncompatibleArgs. Every single-"
+              "field deletion and kind change of valid dictionaries in both representations is enumerated through real files, and "
+              "every public operation is run on adversarial shapes with operands snapshotted around failing calls."),
+        design="4 (C14)", note=NOTE_R + " Integer literals >= 2^1024 and unknown extra keys of a string-form dictionary still escape (outside the enumerated faults; DESIGN 5)."),
     "C17": dict(
         technique="Coq proof about a hand-written executable model + correspondence with LP replay + exact semantic oracle",
         text=("Theorems C17_contains/_intersect/_le_sound/_disjoint_check/_merge (props/C17.v) about model/Compound.v for every exact "
@@ -77,6 +105,15 @@ CHECKS = {
               "counts), compound merge; every NestedPolyhedra/PolyhedralIoContractCompound operation is replayed through the model "
               "(exact comparison, canary), and C17 is re-decided exactly on the real objects."),
         design="4 (C17)", note=NOTE_R),
+    "C18": dict(
+        technique="Coq proof about a hand-written executable model with validated geometric oracles + correspondence + exact end-to-end oracle",
+        text=("Theorems C18_corners (verified exact corner enumeration), C18_glue (the rows handed to the geometry are exactly the "
+              "slice at the given values and limits), C18_vertices (if Qhull returns the corner set the result is exactly the corners, "
+              "all inside the slice, sorted by angle around the centroid), C18_degenerate, C18_empty_slice, C18_arguments, sort "
+              "permutation/sortedness, unreachable assert (props/C18.v). Qhull and the Chebyshev/fallback LPs are oracles whose "
+              "every answer is validated against the verified corners; partial in that sense. The real routine is replayed through "
+              "the model (rows, points, order, error kind) and re-decided against an independent exact polygon computation."),
+        design="4 (C18)", note=NOTE_R + " Qhull/Chebyshev LP are foreign code, modelled by their input/output contract only; the start point of the list depends on float sign noise at the atan2 branch cut (cut_low oracle)."),
 }
 
 PENDING_PROOF_REPAIR = set()
@@ -86,13 +123,9 @@ NOT_YET = {
     "C01": "check under construction in this session: needs the tactic soundness proofs (C04) to instantiate C05 for polyhedra",
     "C02": "check under construction in this session: needs the tactic soundness proofs (C04) to instantiate C05 for polyhedra",
     "C08": "check under construction in this session",
-    "C09": "check under construction in this session (grammar model pending)",
-    "C10": "check under construction in this session (printer model pending)",
     "C13": "check under construction in this session",
-    "C14": "check under construction in this session",
     "C15": "check under construction in this session",
     "C16": "check under construction in this session",
-    "C18": "check under construction in this session",
     "C19": "check under construction in this session",
 }
 
